@@ -3,6 +3,7 @@ package rules
 import (
 	"fmt"
 	"go/token"
+	"go/types"
 	"sort"
 	"strings"
 
@@ -465,7 +466,88 @@ func invokesSync(callee *ssa.Function, i int, depth int) bool {
 	return called
 }
 
+// c09CallerContext: a function that receives a context never hands a context rooted in context.Background() (or
+// TODO()) to the calls it makes: the work it starts must end when the caller's context ends.
+func c09CallerContext(p *load.Program, r *oblig.Report) {
+	const rule = "C09.R4 blocking waits on the caller's goroutine honour a context"
+	isCtx := func(t types.Type) bool { return an.NamedIs(t, "context", "Context") }
+	var rootless func(v ssa.Value, depth int) bool
+	rootless = func(v ssa.Value, depth int) bool {
+		if depth > 8 {
+			return false
+		}
+		switch x := v.(type) {
+		case *ssa.Extract:
+			return rootless(x.Tuple, depth+1)
+		case *ssa.Call:
+			f := x.Call.StaticCallee()
+			if f == nil || f.Pkg == nil || f.Pkg.Pkg.Path() != "context" {
+				return false
+			}
+			switch f.Name() {
+			case "Background", "TODO":
+				return true
+			case "WithTimeout", "WithDeadline", "WithCancel", "WithValue", "WithCancelCause", "WithoutCancel":
+				if f.Name() == "WithoutCancel" {
+					return true
+				}
+				return rootless(x.Call.Args[0], depth+1)
+			}
+		case *ssa.Phi:
+			for _, e := range x.Edges {
+				if rootless(e, depth+1) {
+					return true
+				}
+			}
+		case *ssa.MakeInterface:
+			return rootless(x.X, depth+1)
+		case *ssa.UnOp:
+			if cv := an.CellValueAt(x); cv != nil {
+				return rootless(cv, depth+1)
+			}
+		}
+		return false
+	}
+	n, bad := 0, 0
+	for _, fn := range p.ModuleFunctions() {
+		hasCtx := false
+		for _, prm := range fn.Params {
+			if isCtx(prm.Type()) {
+				hasCtx = true
+			}
+		}
+		if !hasCtx {
+			continue
+		}
+		n++
+		an.EachInstr(fn, func(ins ssa.Instruction) {
+			ci, ok := ins.(ssa.CallInstruction)
+			if !ok {
+				return
+			}
+			if f := ci.Common().StaticCallee(); f != nil && f.Pkg != nil {
+				switch f.Pkg.Pkg.Path() {
+				case "context":
+					return // deriving is fine, using the derived context in a call is what counts
+				case "runtime/pprof":
+					return // profiler labels: no wait depends on that context
+				}
+			}
+			for _, a := range ci.Common().Args {
+				if isCtx(a.Type()) && rootless(a, 0) {
+					bad++
+					r.Bad(rule, an.ShortFunc(fn)+" passes a context that ignores its caller's context to "+an.CalleeName(ci.Common()), p.Pos(ins.Pos()), "contexts handed to calls derive from the function's own context parameter", "derived from context.Background()")
+				}
+			}
+		})
+	}
+	r.Check(bad == 0, rule, "no function with a context parameter hands a context rooted in context.Background() to the calls it makes", "-", fmt.Sprintf("%d functions with a context parameter examined", n), fmt.Sprintf("%d offending call(s)", bad))
+	r.RequireCount(rule+" (functions with a context parameter)", n, 40)
+}
+
 func c09ContextWaits(p *load.Program, r *oblig.Report) {
+	c09CallerContext(p, r)
+	replyChannelBuffered(p, r, "C09.R4 blocking waits on the caller's goroutine honour a context")
 	const rule = "C09.R4 blocking waits on the caller's goroutine honour a context"
 	entries := []string{"(*Writer).WriteMessages", "(*Reader).FetchMessage", "(*Reader).CommitMessages", "(*Transport).RoundTrip"}
 	extra := map[string]*ssa.Function{
